@@ -1120,6 +1120,16 @@ func (c *ControlPlane) InheritDialerHealthFrom(previous *ControlPlane) bool {
 		previousGroups[group.Name] = group
 	}
 
+	// Dialers are shared between groups. The selection floors are therefore applied
+	// only after every snapshot has been restored: restoring a shared dialer for a
+	// later group would otherwise undo the floor an earlier group had just been given
+	// and leave that group without a selectable dialer.
+	type pendingFloor struct {
+		group    *outbound.DialerGroup
+		fallback outbound.ReloadSelectionFallback
+	}
+	var floors []pendingFloor
+
 	for _, group := range c.outbounds {
 		if group == nil {
 			continue
@@ -1128,7 +1138,17 @@ func (c *ControlPlane) InheritDialerHealthFrom(previous *ControlPlane) bool {
 		if oldGroup == nil {
 			continue
 		}
-		fallback := group.CaptureReloadSelectionFallback()
+		floors = append(floors, pendingFloor{group: group, fallback: group.CaptureReloadSelectionFallback()})
+	}
+
+	for _, group := range c.outbounds {
+		if group == nil {
+			continue
+		}
+		oldGroup := previousGroups[group.Name]
+		if oldGroup == nil {
+			continue
+		}
 		oldDialers := make(map[string]*dialer.Dialer, len(oldGroup.Dialers))
 		for _, d := range oldGroup.Dialers {
 			if d == nil || d.Property() == nil {
@@ -1145,7 +1165,9 @@ func (c *ControlPlane) InheritDialerHealthFrom(previous *ControlPlane) bool {
 				hasOverlap = true
 			}
 		}
-		group.EnsureReloadSelectionFloor(fallback)
+	}
+	for _, f := range floors {
+		f.group.EnsureReloadSelectionFloor(f.fallback)
 	}
 	return hasOverlap
 }
